@@ -140,7 +140,7 @@ def run(tier, res, replay=None):
         c = copy.deepcopy(base)
         c['setup']['axial_mesh_size'] = dz
         lab.append((name, c))
-    results = trackcheck.run(lab, res, C14_CLAUSES)
+    results = trackcheck.run(lab, res, C14_CLAUSES, opts={'dptable': True})
     step_pairs(res, results)
     tr0 = results[0][0]
     res.sample({'case': tr0['label'], 'cfg': tr0['cfg'],
